@@ -138,6 +138,20 @@ Theorem C11_zero_addon_payback : forall a : addon_in,
 Proof. exact zero_addon_payback. Qed.
 Print Assumptions C11_zero_addon_payback.
 
+(* ... and the same project VIR and MOIC (adjusted CAPEX = CCap + add-on CAPEX, adjusted OPEX = Coam + add-on OPEX) *)
+Theorem C11_zero_addon_vir : forall (a : addon_in) (r : Q),
+  a_capex a == 0 -> a_opex a == 0 -> a_egain a == 0 -> a_hgain a == 0 -> a_profit a == 0 ->
+  vir (npv r (addon_project_cashflow a)) (a_ccap a + a_capex a) == vir (npv r (base_project_cashflow a)) (a_ccap a).
+Proof. exact zero_addon_vir. Qed.
+Print Assumptions C11_zero_addon_vir.
+
+Theorem C11_zero_addon_moic : forall (a : addon_in) (life : nat),
+  a_capex a == 0 -> a_opex a == 0 -> a_egain a == 0 -> a_hgain a == 0 -> a_profit a == 0 ->
+  moic (running (addon_project_cashflow a)) (a_ccap a + a_capex a) (a_coam a + a_opex a) life
+  == moic (running (base_project_cashflow a)) (a_ccap a) (a_coam a) life.
+Proof. exact zero_addon_moic. Qed.
+Print Assumptions C11_zero_addon_moic.
+
 (* ---- non-vacuity ---- *)
 Example ex_scale : let c := Verif.Props.C01.ex1 in
   let '(a, b, _) := lcoe_exec c in let '(a3, b3, _) := lcoe_exec (scale_costs 3 c) in a3 == 3 * a /\ b3 == 3 * b /\ 0 < a.
